@@ -131,7 +131,8 @@ Modes == {"strict", "perm"}
    in that mode and the contents are completely present.  The generators use
    fill > 0 for long contents so that they need not be materialised. *)
 ElemV(s, fill, mode) ==
-  LET h     == Hdr(s)
+  LET pad   == IF fill > 130 THEN 130 ELSE fill        \* header octets may lie in the fill
+      h     == Hdr(s \o [x \in 1..pad |-> 0])
       hdrok == h.ok /\ h.id.canon /\ (IF mode = "strict" THEN h.lcanon ELSE h.lperm)
       full  == hdrok /\ ~h.lbig /\ h.hlen + h.len <= Len(s) + fill
       stop  == IF full THEN (IF h.hlen + h.len <= Len(s) THEN h.hlen + h.len ELSE Len(s)) ELSE 0
